@@ -67,6 +67,12 @@
 (*   - whether account events still pending when Shutdown is processed are *)
 (*     ever applied (shutdown_after_backtest waits only for the market     *)
 (*     forwarder; DESIGN C20).                                             *)
+(* The fatal path (fatalAt: the engine stops on an unrecoverable error, e.g. *)
+(* an order for an instrument whose exchange has no execution link) is part *)
+(* of the model because the property exempts it ("unless the engine stops   *)
+(* on a fatal error"); it is model-checked but not driven in the            *)
+(* implementation (there shutdown_after_backtest may find the feed receiver *)
+(* dropped and panic - outside C20).                                        *)
 (* Fixed by the property (NOT left open): market items reach the engine in *)
 (* dataset order, each once; Shutdown is sent only after the forwarder     *)
 (* finished; a run reads and writes its own record only.                   *)
